@@ -253,7 +253,7 @@ class PiecewiseConstantBirthDeath(Distribution):
         # tips that are not sampled at a rho-sampling event are psi-sampled: also the
         # tips at the present when there is no sampling at the present
         serially_sampled = bool(torch.any(tip_heights > 0.0)) or not bool(
-            torch.any(self.rho[..., -1:] > 0.0)
+            torch.all(self.rho[..., -1:] > 0.0)
         )
 
         m = max(self.lambda_.shape[-1], self.mu.shape[-1])
